@@ -23,10 +23,7 @@ pub struct C13;
 
 pub fn no_probe_cfg() -> Cfg {
     Cfg {
-        probe_qq_keyword: 0,
         probe_temp_capture: 0,
-        probe_begin_define: 0,
-        probe_qq_vector_derived: 0,
         ..callcc_cfg()
     }
 }
